@@ -85,8 +85,8 @@ claim("C12",
       "Decides that Shell::clone copies every field from self (reviewed exceptions), that no Shell field shares interior-mutable state "
       "with its clone through Arc/Rc (reviewed exception: key bindings), that every process-global mutator API call is in a pre_exec "
       "callback, behind !is_subshell() or reviewed, that every subshell-like context runs its body on the clone, that a pipeline stage "
-      "is given the invoking shell only on the single-command or lastpipe-last-stage edges, and that errors raised in a subshell stage "
-      "are turned into its status instead of propagating.",
+      "is given the invoking shell only on the single-command or lastpipe-last-stage edges (never with job control on), that errors raised in "
+      "a subshell stage are turned into its status, and that a job's result reaches its waiter only as an exit code.",
       "Trusted: rustc MIR and fully-qualified type strings; external types are opaque except generic arguments. Known findings: umask, "
       "ulimit. Not decided: that every piece of semantic state lives in Shell.",
       ST + "aggregate-field provenance, type walk, who-may-call with dominating guards, forward taint", "DESIGN.md §3 C12")
@@ -112,7 +112,8 @@ claim("C01",
       "dominating guard, covered by a reviewed (function, kind, count, reason) table entry, or reported; the classes include Display "
       "implementations of dependencies that fail on their own (chrono formatter, itertools Format) reaching to_string/format!, and a few "
       "documented panics of dependencies; plus evaluator totality and recursion guards shared with C07 (the depth counter is carried round "
-      "every cycle of the evaluator's call-graph SCC). A new unguarded site anywhere is reported. Necessary condition for `never panics`.",
+      "every cycle of the evaluator's call-graph SCC), loops bounded by a named limit count on every cycle, and printf's re-apply loop has its "
+      "two exits (no operand-consuming item; an item asked to stop). A new unguarded site anywhere is reported. Necessary condition for `never panics`.",
       "Trusted: rustc MIR of a debug-assertions build; code generated by peg/cached/clap/tokio/tracing/thiserror/async-trait/strum macros; "
       "the one-line reasons in rules/c01_table.json (reviewed by reading the code; triage fuzzing of ~250k inputs found no panic at a "
       "tabled site). Not decided: termination of loops (one tokenizer spin was found by triage and fixed), stack exhaustion, panics "
@@ -133,7 +134,9 @@ claim("C06",
       "`:-`, …) and every listed operator is recognised; that the operator implementations contain no unreviewed panic-capable "
       "construct (scoped C01 inventory); that each of the four prefix/suffix removal operators resolves to a function that enumerates "
       "fully anchored candidate slices of the right side in the right direction, never takes extents from a leftmost-first regex search, "
-      "and (smallest forms) tests the empty candidate; the unset-tolerance table is decided under C03.",
+      "and (smallest forms) tests the empty candidate; that lengths are counted in characters like the slices, ${v@u} touches the first "
+      "character only, every is-associative/indexed test counts the declared-but-unassigned kind, and the substring offset is not clamped; "
+      "the unset-tolerance table is decided under C03.",
       "Trusted: peg ordered-choice semantics; rustc MIR; fancy_regex is leftmost-first. Not decided: results equal bash for all values; "
       "completeness of the candidate set between the extremes; the pattern→regex translation.",
       ST + "PEG source table analysis + scoped construct inventory", "DESIGN.md §3 C06")
@@ -141,14 +144,16 @@ claim("C07",
       "Decides evaluator totality (no trapping i64 operation; div/rem/pow guarded), equality of the precedence!{} table with the bash "
       "reference (levels and associativity), the literal→AST-variant and AST-variant→operation tables, structural short-circuit of && || "
       "?:, operand order of assignments (plain: value before store; compound `x op= e`: current value of x read before e is evaluated), "
-      "and the dereference depth guard.",
+      "the dereference depth guard, that variable contents are read only by the arithmetic parser, that `${v:o:l}` evaluates o before l, that the "
+      "parse cache key is the input itself, and that assignments are not operands (they are today: known finding).",
       "Trusted: rustc MIR; peg precedence!{} semantics; the reference table (bash manual). Not decided: literal values, printed results.",
       ST + "MIR operation inventory + grammar table comparison + control dependence", "DESIGN.md §3 C07")
 claim("C08",
       "Decides that compiled patterns anchor the whole string (flag group has `s` and not `m`; whole-string matchers pass both anchors; "
       "^/$ emitted under their flags), that the literal-escaping tables contain every regex metacharacter (and the parser-side table is a "
       "superset), that pathname expansion sorts per directory and applies the dot-file policy, and (shared with C06) that the pattern "
-      "operators of parameter expansion enumerate fully anchored candidates and never use a leftmost-first search for extents.",
+      "operators of parameter expansion enumerate fully anchored candidates and never use a leftmost-first search for extents; that no "
+      "pattern of [[ ]] / case / ${v#p} is built from the flat text of an expansion, and that the dot-file policy is per path component.",
       "Trusted: rustc MIR; fancy_regex flag semantics; format literals recovered from call-site snippets. Not decided: the pattern→regex "
       "translation for all patterns, collation order.",
       ST + "constant/flag inspection, SwitchInt character-table extraction, must-pass-through", "DESIGN.md §3 C08")
@@ -164,7 +169,8 @@ claim("C14",
       "Decides that for every operator-like AST enum the literal written by Display is one the grammar maps to the same variant "
       "(program, arithmetic and test grammars; 84 rows), that the [[ ]] and test predicate tables agree, that every Display loop "
       "reachable from FunctionDefinition separates its items, that every Display impl of an AST node reads every field of its node "
-      "(locations and one reviewed derived field excepted), that here-document terminators are printed unquoted and bodies are not "
+      "(locations and one reviewed derived field excepted) and in the order the grammar binds them, that the BASH_FUNC reader accepts what "
+      "the writer emits, that all operator → implied-descriptor tables agree, that here-document terminators are printed unquoted and bodies are not "
       "written through an indenting adaptor (both fail today: two known findings), and that export / declare -f print through the same "
       "Display impl.",
       "Trusted: rustc MIR; peg source inspection. Known findings: here-documents inside printed functions. Not decided: parse∘print "
